@@ -232,6 +232,11 @@ def check(run: Run, tier: str, seed: int):
                                           splits=[tuple(x) for x in reversed(spec["splits"])], vs=spec["vars"],
                                           states={int(k): v for k, v in spec["states"].items()})
             ops = [{"op": "multiply", "other": other}]
+        if i % 8 == 3 and cls == "complex":
+            # conjugate of a square with Kronecker layers: the product of Kronecker layers introduces a real constant
+            # permutation matrix next to complex weights (mixed dtypes under the sum-collapse rewrite)
+            spec = gen.gen_spec(srng, **dict(o, prod_kinds=["kron"], units=[2], nv=srng.choice([2, 3])))
+            ops = [{"op": "square"}, {"op": "conjugate"}]
         feats = gen.spec_features(spec)
         nontrivial = feats["had"] + feats["kron"] > 0 and any(d["t"] == "sum" for d in spec["layers"])
         semiring = srng.choice(semirings)
